@@ -290,7 +290,8 @@ func TestVerifC01(t *testing.T) {
 			}
 			continue
 		}
-		p, err := e2e.Start(e2e.Options{Carrier: it.Carrier, Listener: it.Lst})
+		// tcp listeners go with tcp targets, unix listeners with unix targets: both channel address kinds are covered
+		p, err := e2e.Start(e2e.Options{Carrier: it.Carrier, Listener: it.Lst, Channels: []e2e.ChanSpec{{Name: "echo", TargetNet: it.Lst}}})
 		if err != nil {
 			rec.Violation(it.Carrier+":"+it.Lst+":setup-failed", map[string]string{"carrier": it.Carrier, "listener": it.Lst}, err.Error())
 			continue
